@@ -226,5 +226,5 @@ func init() {
 		ruleCommon+"include/exec/includeIfExists call sites at depth <=3 inside range, blocks, try and other includes, static and computed names (also one include action executed with a different name per loop iteration), relative and absolute spellings, with/without explicit context, targets that extend 1-2 levels; "+
 			"every include is preceded by a declaration of an includer variable the target prints, and followed by isset() of a variable the target declares (must be false); "+
 			"the first 2500 cases per run generate exec targets with {{return probe(..)}} at every position (top level, if/else, range/else, try/catch, included templates with and without context, block bodies, yielded content, nested exec): the rendered value must be the last return recorded in the observed call log (nil if none) and none of the target's text may reach the writer; "+
-			"non-trivial = an include/exec/includeIfExists site is present (model cases) or >=2 returns were executed (exec cases); distinct by feature set / construct counts", 6000, 150000, 300)
+			"non-trivial = an include/exec/includeIfExists site is present (model cases) or >=2 returns were executed (exec cases); distinct by feature set / construct counts", 25000, 800000, 300)
 }
